@@ -540,7 +540,9 @@ package store
 // DeleteRange: accepts only a prefix from Tail, a suffix up to Head+1 or the whole chain; rejects anything else
 // without effect; removes exactly the range; Head/Tail describe the remaining chain (C08)
 //@ func (*Store).DeleteRange(s, ctx, from, to)
-//@   props C08, C14, C04
+//@   props C08, C14, C04, C17
+//@   ghost synced error := result0 of call Sync #0
+//@   before Head [C17,C08] synced-before-reading-pointers: called(synced) && synced == nil -- every Append that returned earlier has passed the flush loop before head and tail are read: the range is judged against the pointers a sequential execution would see
 //@   requires storeINV(s) && s.ds != nil && !isBatch(s.ds) && deleteRangeParallelThreshold > 0 && deleteRangeParallelThreshold <= 4611686018427387904
 //@   rely after Sync: storeINV(s)
 //@   ghost hd H := result0 of call Head #0
